@@ -9,7 +9,29 @@ pub fn run(case: &Value, ctx: &Ctx) -> Outcome {
     let mut out = Outcome::default();
     let pops = usizes(&case["pops"]);
     let proj = usizes(&case["proj"]);
-    let want: Vec<f64> = case["scs"].as_array().unwrap().iter().map(qnum).collect();
+    // factored scenarios carry, per counted record, one row per axis; the expected spectrum is the sum of their outer products
+    let want: Vec<f64> = if case["factored"].as_bool().unwrap_or(false) {
+        let n: usize = proj.iter().product();
+        let mut acc = vec![0.0f64; n];
+        for rec in case["rows"].as_array().unwrap() {
+            let rows: Vec<Vec<f64>> = rec.as_array().unwrap().iter().map(|r| r.as_array().unwrap().iter().map(qnum).collect()).collect();
+            if rows.is_empty() {
+                continue;
+            }
+            for (q, cell) in acc.iter_mut().enumerate() {
+                let mut rem = q;
+                let mut w = 1.0;
+                for j in (0..proj.len()).rev() {
+                    w *= rows[j][rem % proj[j]];
+                    rem /= proj[j];
+                }
+                *cell += w;
+            }
+        }
+        acc
+    } else {
+        case["scs"].as_array().unwrap().iter().map(qnum).collect()
+    };
     out.nontrivial = Some(format!("{pops:?}->{proj:?}/{}", case["recs"]));
     let mut cols = Vec::new();
     let mut labels = Vec::new();
